@@ -340,8 +340,7 @@ impl HtmlFilterBodyAction {
     //@| before `token_type = tokenizer.next()?;`#1: let ghost ts = tokenizer.rs();
     //@| after `self.last_buffer.extend(tokenizer.buffered());`#1: proof { assert(self.last_buffer@ =~= d.subrange(ts, d.len() as int)); }
     //@| after `self.last_buffer.extend(tokenizer.buffered());`#1: proof { assert(tokenizer.ctx_free()); }
-    //@| before `to_return.push_str(token_data.as_str());`#0: proof { assert(self.current_buffer.is_none()); }
-    //@| before `to_return.push_str(token_data.as_str());`#1: proof { assert(self.current_buffer.is_none()); }
+    //@| before `to_return.push_str(token_data.as_str());`#*: proof { assert(self.current_buffer.is_none()); }
 
     //@@ fn src/filter/html_filter_body.rs :: impl HtmlFilterBodyAction / fn new -> r
     //@| requires visitor.wf(),
@@ -534,8 +533,7 @@ impl EncodeFilterBody {
     //@| ensures final(self).kind_ok(), final(self).wkind() == old(self).wkind(), fresh(final(self).fed(), final(self).sink(), final(self).prod()),
     //@|     r matches Ok(out) ==> finished(old(self).wkind(), old(self).fed(), old(self).sink(), old(self).prod(), out@),
     //@| entry let ghost k = self.wkind(); let ghost f0 = self.fed(); let ghost s0 = self.sink(); let ghost p0 = self.prod();
-    //@| after `encoder.try_finish()?;`#0: proof { let x = choose|x: Seq<u8>| encoder.sink() == s0 + x && encoder.prod() == p0 + x; assert forall|o: Seq<u8>| finished(k, f0, s0 + x, p0 + x, o) implies finished(k, f0, s0, p0, o) by { lemma_finished_extend(k, f0, s0, p0, x, o); } }
-    //@| after `encoder.try_finish()?;`#1: proof { let x = choose|x: Seq<u8>| encoder.sink() == s0 + x && encoder.prod() == p0 + x; assert forall|o: Seq<u8>| finished(k, f0, s0 + x, p0 + x, o) implies finished(k, f0, s0, p0, o) by { lemma_finished_extend(k, f0, s0, p0, x, o); } }
+    //@| after `encoder.try_finish()?;`#*: proof { let x = choose|x: Seq<u8>| encoder.sink() == s0 + x && encoder.prod() == p0 + x; assert forall|o: Seq<u8>| finished(k, f0, s0 + x, p0 + x, o) implies finished(k, f0, s0, p0, o) by { lemma_finished_extend(k, f0, s0, p0, x, o); } }
 }
 impl DecodeFilterBody {
     //@@ fn src/filter/encoding/decode.rs :: impl DecodeFilterBody / fn end -> r
@@ -544,8 +542,7 @@ impl DecodeFilterBody {
     //@|     r matches Ok(out) ==> out@.len() >= old(self).sink().len() && out@.take(old(self).sink().len() as int) == old(self).sink(),
     //@|     r matches Ok(out) ==> (!(*old(self) is Brotli) ==> finished(old(self).wkind(), old(self).fed(), old(self).sink(), old(self).prod(), out@)),
     //@| entry let ghost k = self.wkind(); let ghost f0 = self.fed(); let ghost s0 = self.sink(); let ghost p0 = self.prod();
-    //@| after `decoder.try_finish()?;`#0: proof { let x = choose|x: Seq<u8>| decoder.sink() == s0 + x && decoder.prod() == p0 + x; assert forall|o: Seq<u8>| finished(k, f0, s0 + x, p0 + x, o) implies finished(k, f0, s0, p0, o) by { lemma_finished_extend(k, f0, s0, p0, x, o); } }
-    //@| after `decoder.try_finish()?;`#1: proof { let x = choose|x: Seq<u8>| decoder.sink() == s0 + x && decoder.prod() == p0 + x; assert forall|o: Seq<u8>| finished(k, f0, s0 + x, p0 + x, o) implies finished(k, f0, s0, p0, o) by { lemma_finished_extend(k, f0, s0, p0, x, o); } }
+    //@| after `decoder.try_finish()?;`#*: proof { let x = choose|x: Seq<u8>| decoder.sink() == s0 + x && decoder.prod() == p0 + x; assert forall|o: Seq<u8>| finished(k, f0, s0 + x, p0 + x, o) implies finished(k, f0, s0, p0, o) by { lemma_finished_extend(k, f0, s0, p0, x, o); } }
 }
 impl DecodeFilterBody {
     pub open spec fn fed(&self) -> Seq<u8> { match self { DecodeFilterBody::Gzip(e) => e.fed(), DecodeFilterBody::Brotli(e) => e.fed(), DecodeFilterBody::Deflate(e) => e.fed() } }
